@@ -8,7 +8,7 @@ def run(ctx):
     vlib.stage_specs(wd)
     drv = vlib.build_harness()
     # reverse direction (informational): tiny reversible codestreams written by the TLA+ reference encoder
-    nsim = 40 if ctx.quick else 600
+    nsim = 30 if ctx.quick else 600
     scn, r = vlib.gen_scenarios(wd, "J2kGen", "J2kGen.cfg", workers=1, simulate="num=%d" % nsim, timeout=7200,
                                 extra=["-seed", str(4000 + ctx.seed), "-depth", "10"])
     ctx.mc_states += r["states"]; ctx.mc_transitions += r["states"]
@@ -36,7 +36,7 @@ def run(ctx):
                 e["stream"] = e["stream"][:64] + ["..."]
                 samples.append(e)
     val["accepted_scenarios"] = val["accepted"]
-    pk = {"parsed": 0, "skipped": 0, "unparsed": 0, "ragree": 0, "rdiffer": 0}
+    pk = {"parsed": 0, "skipped": 0, "unparsed": 0, "ragree": 0, "rdiffer": 0, "tagree": 0, "tdiffer": 0}
     for i in val["infos"]:
         if i.startswith("pk "):
             for kv in i.split()[1:]:
@@ -57,6 +57,7 @@ def run(ctx):
         assumptions=["spec/Markers.tla is a faithful transcription of T.81 Annex B, T.87 Annex C, T.800 Annex A marker syntax",
                      "the walkers check framing and header fields; the entropy-coded payload is only checked for marker codes"],
         extra={"driver_stats": stats, "packet_reader": {k: pk[k] for k in ("parsed", "skipped", "unparsed")},
-               "reference_encoder_streams": {"library_decodes_exactly": pk["ragree"], "differs": pk["rdiffer"],
+               "reference_encoder_streams": {"single_tile": {"library_decodes_exactly": pk["ragree"], "differs": pk["rdiffer"]},
+                                             "tiled": {"library_decodes_exactly": pk["tagree"], "differs": pk["tdiffer"]},
                                              "samples": [i for i in val["infos"] if i.startswith("library decoder does not")][:3]}},
         distinct=len(classes))
